@@ -42,6 +42,8 @@ type World struct {
 	// blockedSrc: source IPs whose dials are refused (a process that was killed
 	// must not come back through its library's reconnect loop)
 	blockedSrc map[string]bool
+	addrPool   []net.TCPAddr
+	addrNext   int
 	// Yield, if set, is called at the start of every Write on an endpoint
 	// accepted by a daemon: a write is a system call, and other goroutines
 	// run while it is in progress.
@@ -89,7 +91,29 @@ func NewWorld() *World {
 		nextPort:  20000,
 		nextEph:   40000,
 		BufSize:   1 << 20,
+		// The daemons keep their connections in maps keyed by net.Addr, i.e. by
+		// the POINTER to the address: iteration order then depends on heap
+		// addresses, and those on every allocation before (e.g. on how many
+		// digits the memory statistics in a /stats reply have). Addresses come
+		// from one block allocated when the world is created instead.
+		addrPool: addrArena[:],
 	}
+}
+
+// addrArena is static (fixed address in the binary): a heap block would still
+// move with whatever was allocated before the world was created.
+var addrArena [16384]net.TCPAddr
+
+func (w *World) newAddr(ip net.IP, port int) *net.TCPAddr {
+	w.mu.Lock()
+	defer w.mu.Unlock()
+	if w.addrNext < len(w.addrPool) {
+		a := &w.addrPool[w.addrNext]
+		w.addrNext++
+		a.IP, a.Port = ip, port
+		return a
+	}
+	return &net.TCPAddr{IP: ip, Port: port}
 }
 
 // NextSeq returns a world-global event sequence number.
@@ -723,7 +747,7 @@ func (w *World) dial(ctx context.Context, address string, srcIP net.IP, timeout 
 	if srcIP == nil {
 		srcIP = net.IPv4(127, 0, 0, 1)
 	}
-	la := &net.TCPAddr{IP: srcIP, Port: eph}
+	la := w.newAddr(srcIP, eph)
 	c2s := newHalf(w.BufSize)
 	s2c := newHalf(w.BufSize)
 	cl := &Conn{w: w, in: s2c, out: c2s, local: la, remote: l.addr}
